@@ -55,6 +55,11 @@ func defaults() http.Header {
 	return h
 }
 
+type keptTarget struct {
+	t  *vegeta.Target
+	id int
+}
+
 func TestDrv_C15(t *testing.T) {
 	dir := outDir(t)
 	tr := NewTracer(filepath.Join(dir, "c15.ndjson"))
@@ -131,6 +136,7 @@ func TestDrv_C15(t *testing.T) {
 							<-start
 							eofs := 0
 							var slot vegeta.Target
+							var kept []keptTarget
 							for k := 0; ; k++ {
 								var fresh vegeta.Target
 								tg := &fresh
@@ -147,7 +153,21 @@ func TestDrv_C15(t *testing.T) {
 								case err != nil:
 									perCaller[g] = append(perCaller[g], -2)
 								default:
-									perCaller[g] = append(perCaller[g], idOf(tg))
+									id := idOf(tg)
+									// the targets this caller drew before (those it did not hand back) are still what they were:
+									// nothing a later draw - its own or another caller's - writes may reach into them
+									for _, h := range kept {
+										if idOf(h.t) != h.id {
+											id = -3
+										}
+									}
+									if tg == &fresh {
+										if len(kept) == 3 {
+											kept = kept[1:]
+										}
+										kept = append(kept, keptTarget{tg, id})
+									}
+									perCaller[g] = append(perCaller[g], id)
 								}
 								if kind == "static" && k+1 >= (3*n)/callers+g%3+1 {
 									return
